@@ -134,6 +134,9 @@ MCMutKindsOf(f) == IF f \in {"forge", "mini"} THEN AllMutKinds ELSE {}
 AllEnvKinds == {"plain", "same-id-back", "same-id-front", "same-id-fmt-back", "same-content-back", "same-content-front"}
 MCEnvKindsOf(f) == IF f \in {"forge", "mini"} THEN AllEnvKinds ELSE {"plain"}
 MCTamperMutKinds == {"forge-path", "permute", "dup-shadow", "dup-trail", "drop", "surplus"}
+AllIncKinds == {"empty-vp", "empty-vp-jwt", "decoy-vp", "no-vp", "partial-vp"}
+\* the big family presents the empty presentation in one format only (budget)
+MCIncKindsOf(f) == IF f = "reqs" THEN AllIncKinds \ {"empty-vp-jwt"} ELSE AllIncKinds
 \* hostile envelopes are explored in these shapes
 MCTamperShapes == {"ldp", "jwt", "jwt-arr"}
 \* envelope shapes the driver presents the wallet's own submission in
@@ -168,6 +171,13 @@ SubsOf == UNION { LET pres == Tamper(PresentedCreds, x[2])
                    m \in MutSet(sb, x[1], pres, DescIds, MutKindsFor(x[2]))} :
                   x \in {y \in MCShapesOf(fam) \X MCEnvKindsOf(fam) : EnvOK(y[1], y[2]) /\ (y[2] = "plain" \/ y[1] \in MCTamperShapes)} }
 
+\* submissions over incomplete envelopes (every family, also when the wallet found nothing)
+IncSubsOf == {[shape |-> IncShape(e), ek |-> e, env |-> IncEnv(e), mut |-> "incomplete", entries |-> IncSub(e),
+               must |-> IF e = "no-vp" THEN (IF ValidSel(def, {}) THEN "any" ELSE "reject")
+                        ELSE IF ~RefOK(def, IncSub(e), IncShape(e), VPs(IncShape(e), IncEnv(e)), Dev) THEN "reject" ELSE "accept",
+               pred |-> CodeVerdict(def, IncSub(e), IncShape(e), VPs(IncShape(e), IncEnv(e)), Dev)] :
+              e \in {x \in MCIncKindsOf(fam) : IncEnabled(x)}}
+
 CaseRec ==
     [fam |-> fam, def |-> def, wallet |-> wallet, shapes |-> EmitShapes(fam),
      exp |-> [sat |-> [i \in 1..Len(def.ds) |-> [d |-> def.ds[i].id, cs |-> {wallet[j].name : j \in {j \in 1..Len(wallet) : RefSat(def, def.ds[i], wallet[j])}}]],
@@ -183,7 +193,7 @@ CaseRec ==
                               x \in {x \in (1..Len(def.ds)) \X (1..Len(wallet)) \X (1..2) :
                                       /\ x[3] <= Len(def.ds[x[1]].fields) /\ def.ds[x[1]].fields[x[3]].id # ""
                                       /\ RefSat(def, def.ds[x[1]], wallet[x[2]])}}],
-     subs |-> IF out.res = "ok" /\ MCMutKindsOf(fam) # {} THEN SubsOf ELSE {}]
+     subs |-> (IF out.res = "ok" /\ MCMutKindsOf(fam) # {} THEN SubsOf ELSE {}) \cup IncSubsOf]
 
 Emit == (phase = "matched") => PrintT(ToJson(CaseRec))
 EmitTable == (phase = "start") => PrintT(ToJson([tbl |-> "pat", rows |-> PatTable]))
